@@ -20,6 +20,7 @@ TRUSTED = {
     "bjoin": "b''.join: join([])=b'', join(xs+[x])=join(xs)+x, join([x])=x",
     "strip": "bytes.lstrip/rstrip of one byte value: result is the suffix/prefix after removing the maximal run",
     "brev": "b[::-1]: length, involution, element positions",
+    "brep": "bytes([c]) * k: length max(k,0), every element c; b == bytes([c])*(len(b)-len(b.lstrip(c))) + b.lstrip(c); (bytes([c])*z + e).lstrip(c) == e when e is empty or e[0] != c",
     "byte-range": "every element of a bytes object is in range(256)",
 }
 
@@ -46,7 +47,7 @@ def _subterms(t, seen, out):
         k = t.get_id()
         if k in seen:
             continue
-        seen.add(k)
+        seen[k] = t   # keeps t alive (ids are reused after garbage collection)
         if z3.is_app(t):
             out.append(t)
             stack.extend(t.children())
@@ -66,16 +67,22 @@ class Axioms:
     """Incremental instantiation: feed formulas, get new ground instances."""
 
     def __init__(self, rounds=3):
-        self.seen = set()
+        self.seen = {}
         self.rounds = rounds
         self.used = set()
         self.extra_rules = []  # callables(term) -> list of instances (spec unfoldings, lemmas)
+        self.pows = {}
+        self.lstrips = []
+        self.breps = []
+        self.fuel = 1          # unfolding depth for recursive spec functions (terms of the query itself: depth 1)
+        self._round = 0
 
     def feed(self, formulas):
         """Return the list of new instances implied by the applications in formulas."""
         out = []
         frontier = list(formulas)
-        for _ in range(self.rounds):
+        for rnd in range(self.rounds):
+            self._round = rnd
             terms = []
             for f in frontier:
                 _subterms(f, self.seen, terms)
@@ -89,6 +96,15 @@ class Axioms:
             out.extend(new)
             frontier = new
         return out
+
+    def _strip_rep(self, ls, rp):
+        """x.lstrip(c) == x[z:] when x[:z] is a run of c and x[z] (if any) is not c."""
+        x, c = ls.children()
+        c2, z = rp.children()
+        n = z3.Length(x)
+        return [z3.Implies(z3.And(c == c2, z >= 0, z <= n, z3.Extract(x, lit(0), z) == rp,
+                                  z3.Or(n == z, x[z] != c)),
+                           ls == z3.Extract(x, z, n - z))]
 
     def _inst(self, t):
         d = t.decl()
@@ -107,6 +123,12 @@ class Axioms:
                 out.append(inv(t, n) == b)
                 out.append(z3.Implies(n == 0, t == 0))
                 out.append(z3.Implies(n == 1, t == b[0]))
+                if name == "be":
+                    out.append(z3.Implies(n >= 1, z3.And(b[0] * pow_term(256, n - 1) <= t,
+                                                         t < (b[0] + 1) * pow_term(256, n - 1))))
+                else:
+                    out.append(z3.Implies(n >= 1, z3.And(b[n - 1] * pow_term(256, n - 1) <= t,
+                                                         t < (b[n - 1] + 1) * pow_term(256, n - 1))))
                 # concat law
                 if z3.is_app_of(b, z3.Z3_OP_SEQ_CONCAT):
                     parts = b.children()
@@ -160,6 +182,14 @@ class Axioms:
                 out.append(z3.Implies(e >= 1, t == b * sym.F_pow(b, e - 1)))
                 out.append(z3.Implies(z3.And(b >= 1, e >= 0), t >= 1))
                 out.append(z3.Implies(z3.And(b >= 2, e >= 1), t >= b))
+                # monotonicity against the other powers of the same base seen so far
+                key = str(b)
+                others = self.pows.setdefault(key, [])
+                for (e2, t2) in others:
+                    out.append(z3.Implies(z3.And(b >= 1, e >= 0, e2 >= 0, e < e2), b * t <= t2))
+                    out.append(z3.Implies(z3.And(b >= 1, e >= 0, e2 >= 0, e2 < e), b * t2 <= t))
+                    out.append(z3.Implies(e == e2, t == t2))
+                others.append((e, t))
             elif name == "bitlen":
                 self.used.add("bitlen")
                 x = ch[0]
@@ -190,6 +220,14 @@ class Axioms:
                 b, c = ch
                 n, m = z3.Length(b), z3.Length(t)
                 out.append(m <= n)
+                j = z3.Int("j!strip")
+                if name == "lstrip":
+                    out.append(z3.ForAll([j], z3.Implies(z3.And(j >= 0, j < n - m), b[j] == c)))
+                    out.append(z3.ForAll([j], z3.Implies(z3.And(j >= 0, j < m), t[j] == b[n - m + j])))
+                    out.append(z3.ForAll([j], z3.Implies(z3.And(j >= n - m, j < n), b[j] == t[j - (n - m)])))
+                else:
+                    out.append(z3.ForAll([j], z3.Implies(z3.And(j >= m, j < n), b[j] == c)))
+                    out.append(z3.ForAll([j], z3.Implies(z3.And(j >= 0, j < m), t[j] == b[j])))
                 if name == "lstrip":
                     out.append(t == z3.Extract(b, n - m, m))
                     out.append(z3.Implies(m > 0, t[0] != c))
@@ -202,6 +240,31 @@ class Axioms:
                     out.append(z3.Implies(m > 0, t[m - 1] != c))
                     out.append(z3.Implies(z3.And(n > 0, b[n - 1] != c), t == b))
                     out.append(z3.Implies(z3.And(n > 0, b[n - 1] == c), m < n))
+                if name == "lstrip":
+                    self.lstrips.append(t)
+                    for rp in self.breps:
+                        out.extend(self._strip_rep(t, rp))
+                    rep = sym.uf("brep", IntS, IntS, BytesS)(c, n - m)
+                    out.append(b == z3.Concat(rep, t))
+                    out.append(z3.Length(rep) == n - m)
+                    # stripping a run followed by something that does not start with c
+                    if z3.is_app_of(b, z3.Z3_OP_SEQ_CONCAT) and len(b.children()) >= 2:
+                        h = b.children()[0]
+                        if z3.is_app(h) and h.decl().name() == "brep":
+                            rest = b.children()[1:]
+                            restt = rest[0] if len(rest) == 1 else z3.Concat(*rest)
+                            out.append(z3.Implies(z3.And(h.arg(0) == c, z3.Or(z3.Length(restt) == 0, restt[0] != c)),
+                                                  t == restt))
+            elif name == "brep":
+                self.used.add("brep")
+                c, k = ch
+                self.breps.append(t)
+                for ls in self.lstrips:
+                    out.extend(self._strip_rep(ls, t))
+                out.append(z3.Length(t) == z3.If(k > 0, k, 0))
+                j = z3.Int("j!rep")
+                out.append(z3.ForAll([j], z3.Implies(z3.And(j >= 0, j < k), t[j] == c)))
+                out.append(z3.Implies(k > 0, t[0] == c))
             elif name == "brev":
                 self.used.add("brev")
                 b = ch[0]
@@ -211,6 +274,7 @@ class Axioms:
             # element of a bytes-like sequence: in range when index in range
             # (only emitted for sequences registered as bytes by the engine)
             pass
-        for r in self.extra_rules:
-            out.extend(r(t))
+        if self._round < self.fuel:
+            for r in self.extra_rules:
+                out.extend(r(t))
         return out
